@@ -124,3 +124,183 @@ def inline_locals(fn, expr, exclude=()):
             break
         cur = new
     return ast.fix_missing_locations(cur)
+
+
+# ---------------------------------------------------------------------------
+# path-consistent walk of a (mostly straight-line) function under fixed atoms
+# ---------------------------------------------------------------------------
+import re as _re
+
+CALLS = "\0calls"   # env key: tuple of the Call nodes evaluated so far on this execution
+STMTS = "\0stmts"   # env key: tuple of the simple statements executed so far on this execution
+
+
+def walk_under(fn_node, decide):
+    """Enumerate the executions of ``fn_node``'s body that are consistent with
+    ``decide(atom_text) -> True/False/None`` (None: explore both values, but the
+    same value every time the same atom is tested again while none of the names
+    it mentions has been re-assigned).  Short-circuit evaluation is respected.
+    Returns (evaluated, exits): ``evaluated`` maps id(node) -> (node, env) for every
+    Call/Attribute/Subscript node evaluated on some consistent execution; ``exits``
+    lists (kind, stmt, env) for every return/raise/fall-off reached."""
+    evaluated = {}
+    exits = []
+
+    def note(e, env):
+        """Record what evaluating ``e`` evaluates; returns the env extended with the calls made (key CALLS)."""
+        if e is None:
+            return env
+        stack = [e]
+        made = []
+        while stack:
+            n = stack.pop()
+            if isinstance(n, ast.Lambda):
+                continue
+            if isinstance(n, (ast.BoolOp, ast.IfExp)) and n is not e:
+                # evaluated lazily: handled by truth()/value() when they are the root
+                for (en, _t) in truth(n, env):
+                    pass
+                continue
+            if isinstance(n, (ast.Call, ast.Attribute, ast.Subscript)):
+                evaluated.setdefault(id(n), (n, dict(env)))
+                if isinstance(n, ast.Call):
+                    made.append(n)
+            stack.extend(ast.iter_child_nodes(n))
+        if made:
+            env = dict(env)
+            env[CALLS] = env.get(CALLS, ()) + tuple(reversed(made))
+        return env
+
+    def truth(e, env):
+        if isinstance(e, ast.BoolOp):
+            stop = isinstance(e.op, ast.Or)
+            states = [(env, not stop)]
+            for v in e.values:
+                new = []
+                for en, t in states:
+                    if t == stop:
+                        new.append((en, t))
+                    else:
+                        new.extend(truth(v, en))
+                states = new
+            return states
+        if isinstance(e, ast.UnaryOp) and isinstance(e.op, ast.Not):
+            return [(en, not t) for en, t in truth(e.operand, env)]
+        if isinstance(e, ast.IfExp):
+            out = []
+            for en, t in truth(e.test, env):
+                out.extend(truth(e.body if t else e.orelse, en))
+            return out
+        if isinstance(e, ast.Constant):
+            return [(env, bool(e.value))]
+        env = note(e, env)
+        t, neg = canonical_atom(e)
+        if t in env:
+            v = env[t]
+            return [(env, (not v) if neg else v)]
+        d = decide(t)
+        out = []
+        for v in ([d] if d is not None else [True, False]):
+            en = dict(env)
+            en[t] = v
+            out.append((en, (not v) if neg else v))
+        return out
+
+    def value(e, env):
+        """Evaluate an expression for its value; returns the list of resulting envs."""
+        if e is None:
+            return [env]
+        if isinstance(e, (ast.BoolOp, ast.IfExp)):
+            return [en for en, _t in truth(e, env)]
+        return [note(e, env)]
+
+    def kill(env, names):
+        if not names:
+            return env
+        pat = _re.compile(r"\b(%s)\b" % "|".join(_re.escape(n) for n in names))
+        return {k: v for k, v in env.items() if k in (CALLS, STMTS) or not pat.search(k)}
+
+    def targets(t):
+        return [n.id for n in ast.walk(t) if isinstance(n, ast.Name)]
+
+    def block(stmts, env):
+        envs = [env]
+        for st in stmts:
+            nxt = []
+            for en in envs:
+                nxt.extend(stmt(st, en))
+            envs = nxt
+            if not envs:
+                break
+        return envs
+
+    def stmt(st, env):
+        if isinstance(st, (ast.Return, ast.Raise, ast.Assign, ast.AnnAssign, ast.AugAssign, ast.Expr, ast.Delete)):
+            env = dict(env)
+            env[STMTS] = env.get(STMTS, ()) + (st,)
+        if isinstance(st, ast.Return):
+            for en in value(st.value, env):
+                exits.append(("return", st, en))
+            return []
+        if isinstance(st, ast.Raise):
+            for en in value(st.exc, env):
+                exits.append(("raise", st, en))
+            return []
+        if isinstance(st, ast.If):
+            out = []
+            for en, t in truth(st.test, env):
+                out.extend(block(st.body if t else st.orelse, en))
+            return out
+        if isinstance(st, (ast.Assign, ast.AnnAssign, ast.AugAssign)):
+            tg = st.targets if isinstance(st, ast.Assign) else [st.target]
+            names = [n for t in tg for n in targets(t)]
+            return [kill(en, names) for en in value(st.value, env)]
+        if isinstance(st, ast.Expr):
+            return value(st.value, env)
+        if isinstance(st, (ast.For, ast.AsyncFor)):
+            out = []
+            for en in value(st.iter, env):
+                en = kill(en, targets(st.target))
+                after = block(st.body, en)
+                out.extend(block(st.orelse, en))
+                for a in after:
+                    out.extend(block(st.orelse, kill(a, targets(st.target))))
+            return out
+        if isinstance(st, ast.While):
+            out = []
+            for en, t in truth(st.test, env):
+                if t:
+                    for a in block(st.body, en):
+                        out.append({CALLS: a.get(CALLS, ()), STMTS: a.get(STMTS, ())})
+                else:
+                    out.extend(block(st.orelse, en))
+            return out
+        if isinstance(st, ast.Try):
+            out = []
+            body = block(st.body, env)
+            for en in body:
+                out.extend(block(st.orelse, en))
+            for h in st.handlers:
+                out.extend(block(h.body, {CALLS: env.get(CALLS, ()), STMTS: env.get(STMTS, ())}))
+            res = []
+            for en in out:
+                res.extend(block(st.finalbody, en))
+            return res
+        if isinstance(st, (ast.With, ast.AsyncWith)):
+            en = env
+            for it in st.items:
+                en = note(it.context_expr, en)
+            return block(st.body, en)
+        if isinstance(st, (ast.FunctionDef, ast.AsyncFunctionDef, ast.ClassDef, ast.Pass, ast.Import, ast.ImportFrom, ast.Global, ast.Nonlocal)):
+            return [env]
+        if isinstance(st, (ast.Break, ast.Continue)):
+            return []
+        if isinstance(st, ast.Assert):
+            return [en for en, t in truth(st.test, env) if t]
+        if isinstance(st, ast.Delete):
+            return [env]
+        raise ValueError("walk_under: unsupported statement %s" % type(st).__name__)
+
+    for en in block(fn_node.body, {}):
+        exits.append(("end", None, en))
+    return evaluated, exits
